@@ -137,7 +137,7 @@ theorem exactly_one_of_tap_hold_timeout (s : Layout) (w : Waiting) (cfg : HTConf
     (∃ a ∈ outcomes w, ∃ s0 s1 : Layout, ∃ fuel : Nat, 3999 ≤ fuel ∧
         s0.waiting = none ∧ s0.queue = s.queue ∧ s0.states = s.states ∧
         s0.extraWaiting = s.extraWaiting ∧
-        doAction fuel s0 a w.coord (w.delay + min (w.ticks + 1) U16_MAX) false w.layerStack = .ok (s1, cu) ∧
+        doAction fuel s0 a w.coord (min (w.delay + min (w.ticks + 1) U16_MAX) U16_MAX) false w.layerStack = .ok (s1, cu) ∧
         (s' = s1 ∨ s' = tapPost s1)) := by
   unfold tickMain at h
   simp only [hw, tickWt_holdTap w cfg hc] at h
@@ -147,7 +147,7 @@ theorem exactly_one_of_tap_hold_timeout (s : Layout) (w : Waiting) (cfg : HTConf
   obtain ⟨w1, r⟩ := res
   obtain ⟨f1, f2, f3, f4, f5, f6, f7, f8, f9⟩ := hf
   simp only at f1 f2 f3 f4 f5 f6 f7 f8 f9
-  have hwd : waitingDelay w1 = w.delay + min (w.ticks + 1) U16_MAX := by
+  have hwd : waitingDelay w1 = min (w.delay + min (w.ticks + 1) U16_MAX) U16_MAX := by
     simp only [waitingDelay, f2, hc, f4, f9]
   -- the state handed to applyWaitingAction, with its waiting state taken out
   generalize hS : ({ s with waiting := some w1, queue := s.queue, actionQueue := s.actionQueue } : Layout) = S at h
@@ -249,6 +249,109 @@ theorem except_keys_first_press (keys : List Nat) (pre : List Queued) (x : Queue
     have hp := hpre p (by simp)
     simp only [List.cons_append, customExcept, hp, Bool.false_eq_true, if_false]
     exact ih (fun y hy => hpre y (by simp [hy]))
+
+/-! ### [t8:while-down] The early triggers see only what happened while the key was down -/
+
+/-- the events the early triggers look at: everything queued before the key's own release -/
+theorem whileDown_split (c : Coord) (pre : List Queued) (r : Queued) (post : List Queued)
+    (hpre : ∀ x ∈ pre, (x.ev == .release c) = false) (hr : (r.ev == .release c) = true) :
+    whileDown c (pre ++ r :: post) = pre := by
+  induction pre with
+  | nil => simp only [List.nil_append, whileDown, hr, if_true]
+  | cons p ps ih =>
+    have hp := hpre p (by simp)
+    simp only [List.cons_append, whileDown, hp, Bool.false_eq_true, if_false]
+    rw [ih (fun y hy => hpre y (by simp [hy]))]
+
+/-- **released_key_decides_without_later_events** (full; the statement of the repair PENDING-1).  A
+tap-hold key of ANY variant that has been released, with no other key pressed between its press and
+its release (`pre`), resolves by the time comparison alone - tap iff the countdown exceeds the
+latency compensation - whatever was queued after the release (`post`: the key's own next press, other
+keys pressed and released, listed keys): the early triggers are triggers *while the key is
+undecided and down*. -/
+theorem released_key_decides_without_later_events (w : Waiting) (cfg : HTConfig)
+    (pre : List Queued) (r : Queued) (post : List Queued) (hpre : NoPress pre)
+    (hnr : ∀ x ∈ pre, (x.ev == .release w.coord) = false) (hr : r.ev = .release w.coord)
+    (hlen : ¬ (((pre ++ r :: post).length % 256 == w.prevQueueLen && w.timeout > 0) = true)) :
+    (handleHoldTap w cfg (pre ++ r :: post)).2 =
+      some (if w.timeout > w.delay - r.since then WAct.tap else WAct.timeout) := by
+  have hrr : (r.ev == .release w.coord) = true := by rw [hr]; simp
+  have hfind : (pre ++ r :: post).find? (fun s => s.ev == .release w.coord) = some r := by
+    rw [List.find?_append]
+    have : pre.find? (fun s => s.ev == .release w.coord) = none := by
+      rw [List.find?_eq_none]; intro x hx; simp [hnr x hx]
+    rw [this]; simp [List.find?_cons, hrr]
+  unfold handleHoldTap
+  rw [if_neg hlen]
+  simp only [whileDown_split w.coord pre r post hnr hrr, early_noPress cfg hpre,
+    isCorrespondingRelease, hfind]
+  by_cases h : w.timeout > w.delay - r.since <;> simp only [h, if_true, if_false]
+
+/-- witness: key b (coordinate 48) one tick after it left the queue, where it had waited 80 ticks -/
+def lateW : Waiting :=
+  { coord := (0, 48), timeout := 199, delay := 80, ticks := 1, hold := .keyCode 42, tap := .keyCode 48,
+    timeoutAction := .keyCode 42, config := .holdTap .holdOnOtherKeyPress, layerStack := [0], prevQueueLen := 255 }
+/-- its own release, then another key tapped -/
+def lateOther : List Queued := [⟨.release (0, 48), 60⟩, ⟨.press (0, 46), 40⟩, ⟨.release (0, 46), 20⟩]
+/-- its own release, then the key itself tapped again -/
+def lateOwn : List Queued := [⟨.release (0, 48), 60⟩, ⟨.press (0, 48), 40⟩, ⟨.release (0, 48), 20⟩]
+
+/-- **late_press_made_a_tap_a_hold_counterexample** (the behaviour before the repair, pinned as
+`handleHoldTapPinned`): `tap-hold-press`, hold timeout 200, resolved late with its own release
+(waited 60 ticks) and a later press of another key in the queue.  The pinned code answers hold; the
+repaired code answers tap.  The same witness with the key's OWN second press instead of another key
+(remark R1), and for `tap-hold-release` with a later press+release (remark R3). -/
+theorem late_press_made_a_tap_a_hold_counterexample :
+    (handleHoldTapPinned lateW .holdOnOtherKeyPress lateOther).2 = some .hold ∧
+    (handleHoldTap lateW .holdOnOtherKeyPress lateOther).2 = some .tap ∧
+    (handleHoldTapPinned lateW .holdOnOtherKeyPress lateOwn).2 = some .hold ∧
+    (handleHoldTap lateW .holdOnOtherKeyPress lateOwn).2 = some .tap ∧
+    (handleHoldTapPinned lateW .permissiveHold lateOther).2 = some .hold ∧
+    (handleHoldTap lateW .permissiveHold lateOther).2 = some .tap := by
+  decide
+
+example : NoPress ([] : List Queued) ∧ (⟨.release ((0, 30) : Coord), 1⟩ : Queued).ev = .release (0, 30) :=
+  ⟨(fun _ h => by cases h), rfl⟩
+
+/-! ### [t8:concurrent-overdue] `concurrent-tap-hold yes`: a key whose countdown ran out in the queue -/
+
+/-- **concurrent_overdue_tap_is_hold_counterexample** (known finding, remark R4; the statement "tap
+if the key is released before the hold timeout has elapsed" is FALSE of the code with
+`concurrent-tap-hold yes`).  With the option on, a plain `tap-hold` press that waited `d ≥ T` ticks
+in the queue behind another undecided tap-hold gets the countdown `T ∸ d = 0` and the compensation
+`0`; its first `tick_wt` then answers the timeout (= hold) action WHATEVER is queued - in particular
+when the key's own release has been waiting there for hundreds of ticks, i.e. the key was tapped for
+a few milliseconds long ago.  Witness on the real code: `(defcfg concurrent-tap-hold yes)`,
+a = `(tap-hold 0 300 a lctl)`, b = `(tap-hold 0 200 b lsft)`, `d:a t:10 d:b t:50 u:b t:400 u:a`:
+b was down for 50 of its 200 ms and comes out as LShift (without the option: as b). -/
+theorem concurrent_overdue_tap_is_hold_counterexample (s : Layout) (hq : s.quickTapHoldTimeout = true)
+    (hw : s.waiting = none) (c : Coord) (d T : Nat) (hold tap to : Action) (iv : Nat) (ls : List Nat)
+    (hd : T ≤ d) :
+    ∃ w, (armHoldTapWait s c d T hold tap to .default iv ls).waiting = some w ∧ w.timeout = 0 ∧
+      ∀ (q : List Queued) (aq : ActionQueue), ∃ w', tickWt w q aq = .ok (w', q, aq, some (.timeout, none)) := by
+  have key : ∀ S : Layout, (updateCoord S c).waiting = S.waiting := by
+    intro S; unfold updateCoord; split <;> rfl
+  refine ⟨{ coord := c, timeout := T - d, delay := 0, ticks := 0, hold := hold, tap := tap,
+            timeoutAction := to, config := .holdTap .default, layerStack := ls, prevQueueLen := 255 }, ?_, ?_, ?_⟩
+  · unfold armHoldTapWait
+    simp only [hw, hq, if_true]
+    rw [key]
+  · show T - d = 0
+    omega
+  · intro q aq
+    have hX : (handleHoldTap
+        { coord := c, timeout := T - d - 1, delay := 0, ticks := min (0 + 1) U16_MAX, hold := hold, tap := tap,
+          timeoutAction := to, config := .holdTap .default, layerStack := ls, prevQueueLen := 255 }
+        .default q).2 = some .timeout := by
+      have h0 : T - d - 1 = 0 := by omega
+      unfold handleHoldTap
+      simp only [h0, Nat.lt_irrefl, gt_iff_lt, decide_false, Bool.and_false, Bool.false_eq_true, if_false,
+        earlyTrigger, Nat.not_lt_zero, beq_self_eq_true, Bool.not_false, Bool.and_self, if_true]
+      split <;> rfl
+    rw [tickWt_holdTap _ .default rfl q aq]
+    exact ⟨_, by rw [hX]; rfl⟩
+
+example : (0 : Nat) + 200 ≤ 290 := by decide
 
 /-! ### Keys pressed while the decision is pending -/
 
